@@ -1,11 +1,29 @@
 /- Model-driver operations of cluster G: generated (Gen) and hand-written (Model) code models. -/
 import PdbVerif.Driver.Json
+import PdbVerif.Driver.GCommon
+import PdbVerif.Model.Fnat
 
 namespace Driver.ModelG
-open Lean Driver
+open Lean Driver Driver.GCommon
 
 def op (name : String) (j : Json) : Except String (Option Json) := do
   match name with
+  | "fnat" =>
+    let refL ← jLines j "ref_lines"; let decL ← jLines j "dec_lines"
+    -- "default": the call passes no cutoff and the routines use their own default arguments
+    let isDefault := (jStr j "cutoff") matches .ok "default"
+    let cf ← if isDefault then pure Gen.fnat_fast_cutoff_default else jRat j "cutoff"
+    let cs ← if isDefault then pure Gen.fnat_sql_cutoff_default else jRat j "cutoff"
+    let fast := Model.Fnat.fnatFastFiles refL decL cf
+    let sql := Model.Fnat.fnatSqlFiles refL decL cs
+    pure (some (Json.mkObj [("fast", exceptJ ratJ fast), ("sql", exceptJ ratJ sql),
+      ("raw_agrees", boolJ (match Model.Fnat.tableOfLines decL with
+        | .ok t => Model.Fnat.rawAgrees decL t
+        | .error _ => false))]))
+  | "clashes" =>
+    let ls ← jLines j "lines"
+    let c1 := (← jStr j "chain1").toList; let c2 := (← jStr j "chain2").toList
+    pure (some (exceptJ natJ (Model.Fnat.clashesFile ls c1 c2)))
   | _ => pure none
 
 end Driver.ModelG
